@@ -436,6 +436,15 @@ static int fu_cb_bad[MAXO];
 static void fu_callback_n(int f, void **args)
 {
     int n = G.fut_n[f];
+    /* a callback is user code and may take its time: give the others a chance to look at
+     * the future while it has not even begun */
+    if (ds_active()) {
+        ds_point();
+        ds_point();
+    } else {
+        for (volatile int spin = 0; spin < 200; spin++)
+            ;
+    }
     if (AINC(fu_cb_count[f]) > 1)
         fu_cb_bad[f] = 1;
     for (int i = 0; i < n && i < 16; i++)
